@@ -405,6 +405,11 @@ def run(ctx: vlib.Ctx):
         if "error" in r:
             ctx.notes.append(f"real run {jd} failed: {r['error']}")
             ctx.count("real-run-error")
+            if "covered targets have a fitness" in r["error"] or "algorithms/archive.py" in r.get("traceback", ""):
+                # pynguin's own check of the archive (Archive.solutions asserts that every archived test
+                # covers its goal) or an exception inside the archive stopped the search
+                ctx.fail("real-run:archive-assertion", f"real {job['algorithm']} run stopped inside the archive: {r['error']}",
+                         {"job": jd, "traceback": r.get("traceback", "")[-1500:]})
             continue
         ctx.count(f"real-run:{job['algorithm']}")
         n_real["reexec"] += r["reexec_checked"]
@@ -422,6 +427,15 @@ def run(ctx: vlib.Ctx):
             if sid not in cov_tab or g not in cov_tab[sid][1]:
                 return None
             return g in cov_tab[sid][0]
+        for prev, nxt in zip(r["arch"], r["arch"][1:]):
+            pa = [(g, s["sid"], s["size"]) for g, s in prev["after"]["covered"]]
+            nb = [(g, s["sid"], s["size"]) for g, s in nxt["before"]["covered"]]
+            if pa != nb:
+                diff = [(x, y) for x, y in zip(pa, nb) if x != y][:3]
+                ctx.fail("archived-test-modified-in-place",
+                         f"real run: archived (goal, test, size) entries changed between two archive calls: {diff} "
+                         "(the archive stores the chromosome object; it was modified after being archived)", {"job": jd})
+                break
         for rec in r["arch"]:
             op = rec["op"]
             cop = ("(C13.AUpdate %s)" % clist(c_sol_real(s) for s in op[1])) if op[0] == "Update" else \
